@@ -553,20 +553,28 @@ func MS[T any](s *Sel, i int, ch chan<- T) chan<- T {
 
 // AfterFunc replaces time.AfterFunc in instrumented files: f runs after d in a
 // registered goroutine (a child of the caller), so that its seam calls are
-// scheduling points like everybody else's. The returned stop function is not
-// provided: the instrumented code does not use the timer.
-func AfterFunc(label string, d time.Duration, f func()) {
+// scheduling points like everybody else's. The returned timer is a real one: Stop
+// keeps f from running (the waiting goroutine then stays blocked and is counted as
+// leaked at the end of the execution), Reset re-arms it; f runs at most once.
+func AfterFunc(label string, d time.Duration, f func()) *time.Timer {
 	if cur.Load() == nil {
-		time.AfterFunc(d, f)
-		return
+		return time.AfterFunc(d, f)
 	}
+	fire := make(chan struct{}, 1)
+	t := time.AfterFunc(d, func() {
+		select {
+		case fire <- struct{}{}:
+		default:
+		}
+	})
 	Go(label, func() {
+		<-fire
 		if d > 0 {
-			time.Sleep(d)
 			Point(label + ":fired")
 		}
 		f()
 	})
+	return t
 }
 
 // Sleep parks, then sleeps d of (virtual) time.
